@@ -33,7 +33,8 @@ CONSTANTS Publishers,          \* publisher process ids
           FlagHeldThroughDbWrite,   \* repaired: the transaction flag is released only after the commit's database write
           RootHashBeforeCommit,     \* repaired: the returned root hash is computed before the commit
           PrevEpochChecked,         \* repaired: a record whose previous version is newer than the target is an error
-          ReadersSeePendingEpoch    \* pinned: a request reads the epoch record pending in the shared transaction log
+          ReadersSeePendingEpoch,   \* pinned: a request reads the epoch record pending in the shared transaction log
+          RollbackReleasesFlag      \* as the code: rollback_transaction clears the log AND releases the flag
 
 (* contents are sets of tagged pairs: <<"i", j>> for the initial epochs, <<"p", publisher>> *)
 InitContent(e) == { <<"i", j>> : j \in 1..e }
@@ -116,7 +117,7 @@ Return(p, st, e, r) == /\ ret' = [ret EXCEPT ![p] = [st |-> st, ep |-> e, root |
 (* code at the transaction's linearization points and at the database writes.                       *)
 
 (* Transaction::rollback_transaction *)
-Rollback == txnActive' = FALSE /\ txnLog' = EmptyLog
+Rollback == txnActive' = (IF RollbackReleasesFlag THEN FALSE ELSE txnActive) /\ txnLog' = EmptyLog
 
 (* TreeNode::write_to_storage: the record put into the log for node k at epoch e, whose new content *)
 (* is F(content as of e).  The version as of e - 1 is shifted into `prev`.                          *)
@@ -360,4 +361,12 @@ AnswersArePublished ==
               /\ \A k \in DOMAIN loc[r].recs : loc[r].recs[k].c = ret[r].root    \* no stitching of two epochs
 
 NoTxnLeftOpen == Quiescent => ~txnActive
+
+(* liveness (under weak fairness of every process): every call returns, and the transaction flag is *)
+(* always eventually released - no interleaving or fault leaves a publisher holding it for ever      *)
+FairSpec == Spec /\ \A p \in Procs : WF_cvars(\/ PReadEpoch(p) \/ PReadVersions(p) \/ PBegin(p) \/ PRecheck(p) \/ PNode(p)
+                                                 \/ PSetAzks(p) \/ PDrain(p) \/ PDbWrite(p) \/ PRootAfter(p) \/ PRet(p)
+                                                 \/ RReadEpoch(p) \/ RNode(p))
+EveryCallReturns == <>Quiescent
+FlagEventuallyReleased == txnActive ~> ~txnActive
 =============================================================================
